@@ -110,6 +110,8 @@ def jsonable(obj, depth=0):
     """Best-effort conversion for evidence / replay files."""
     if depth > 12:
         return repr(obj)
+    if isinstance(obj, int) and not isinstance(obj, bool) and obj.bit_length() > 10000:
+        return "<an int of %d bits>" % obj.bit_length()       # (no decimal text to be had: int->str limit)
     if isinstance(obj, (str, int, float, bool)) or obj is None:
         return obj
     if isinstance(obj, bytes):
@@ -120,7 +122,10 @@ def jsonable(obj, depth=0):
         return {"__set__": sorted((jsonable(x, depth + 1) for x in obj), key=canon)}
     if isinstance(obj, dict):
         return {str(k): jsonable(v, depth + 1) for k, v in obj.items()}
-    return repr(obj)
+    try:
+        return repr(obj)
+    except Exception as e:  # noqa
+        return "<%s whose repr raises %s>" % (type(obj).__name__, type(e).__name__)
 
 
 class Ctx:
